@@ -72,7 +72,7 @@ class DumperBase(DataStreamProcessor):
         DumperBase.inc_attr(self.datapackage.descriptor, self.datapackage_rowcount, counter)
         for descriptor in self.datapackage.descriptor['resources']:
             if descriptor['name'] == resource.res.name:
-                DumperBase.inc_attr(descriptor, self.resource_rowcount, counter)
+                DumperBase.set_attr(descriptor, self.resource_rowcount, counter)
         resource.res.commit()
         self.datapackage.commit()
 
